@@ -110,6 +110,15 @@ def logger_variants(observer=None):
         s2.name = "%s:%s_logger" % (base, "no" if kind == "none" else kind)
         s2.meta = dict(s2.meta, logger=kind)
         out[s2.name] = s2
+    # every scripted agent is a falsy object (an empty container) throughout the run
+    for base in ("A_noexec_then_exec", "H_ttl_and_self_trade", "L_hft_caps", "M_three_markets_index"):
+        s2 = copy.copy(sc[base])
+        s2.name = "%s:falsy_agents" % base
+        s2.cfg = copy.deepcopy(s2.cfg)
+        for v in s2.cfg.values():
+            if isinstance(v, dict) and "menu" in v:
+                v["falsy"] = True
+        out[s2.name] = s2
     # the settings object handed to the runner has already been used by an earlier runner
     for base in ("A_noexec_then_exec", "C_cap0_and_rate0", "L_hft_caps", "E_default_caps"):
         s2 = copy.copy(sc[base])
